@@ -54,6 +54,8 @@ def base_message(kind, n):
              (1407, C.AF_V | C.AF_M, 10415, bytes.fromhex("27f450"))]      # Visited-PLMN-Id (3GPP)
     if kind == "app_req":
         return C.app_request(APP_ID, 316, hb, ee, "p;8;%d" % n, PEER_HOST, PEER_REALM, NODE_REALM, extra=extra)
+    if kind == "app_req_dh":
+        return C.app_request(APP_ID, 316, hb, ee, "p;8;%d" % n, PEER_HOST, PEER_REALM, NODE_REALM, dhost=NODE_HOST, extra=extra)
     if kind == "app_req_big":
         return C.app_request(APP_ID, 316, hb, ee, "p;8;%d" % n, PEER_HOST, PEER_REALM, NODE_REALM,
                              extra=extra + [(99998, 0, None, bytes(1500))])
@@ -133,12 +135,20 @@ def mutate(spec, n, live=False):
             # only the decoder sub-check sees the recursion-limit depths
             depth = min(depth, 120)
         code = r.choice([C.VENDOR_SPECIFIC_APP_ID, 279, 284, 297])      # grouped: VSAI, Failed-AVP, Proxy-Info, Exp-Result
-        inner = C.enc_avp((C.VENDOR_ID, C.AF_M, None, C.u32(10415)))
+        leaf = C.enc_avp((C.VENDOR_ID, C.AF_M, None, C.u32(10415)))
+        inner = leaf
+        # "legal" nesting: every level also carries the member its own type demands (so that each level
+        # passes its own validation and the decoder really descends), or only the nested AVP
+        siblings = r.random() < 0.5
         for _ in range(depth):
-            inner = C.enc_avp((code, C.AF_M, None, inner))
+            inner = C.enc_avp((code, C.AF_M, None, (leaf + inner) if siblings else inner))
         body = b"".join(C.enc_avp(a) for a in m["avps"]) + inner
         hdr = bytes(raw[:1]) + (20 + len(body)).to_bytes(3, "big") + bytes(raw[4:20])
         return hdr + body
+    if mut == "flagbit" and offs:
+        off, length = r.choice(offs[:6]) if r.random() < 0.7 else r.choice(offs)
+        raw[off + 4] ^= r.choice([0x80, 0x80, 0x40, 0x20])
+        return bytes(raw)
     if mut == "vflag" and offs:
         # toggle the V bit of an AVP and give it an adversarial length
         off, length = r.choice(offs)
@@ -321,6 +331,57 @@ def typed_garbage_message(code_index, payload_index, n):
     return C.enc_msg(dict(m, avps=list(m["avps"]) + [(code, flags, vendor or None, data)]))
 
 
+_GROUPED = []
+
+
+def _grouped_types():
+    """(vendor, code, encoded mandatory members) of every Grouped AVP class of the dictionary whose mandatory
+    members can be built (with the library's own member classes: these are inputs, not oracles)."""
+    if not _GROUPED:
+        from bromelia.base import DiameterAVP
+        from bromelia.types import GroupedType
+        for cls in DiameterAVP.__subclasses__():
+            try:
+                if not issubclass(cls, GroupedType):
+                    continue
+                members = b""
+                for mc in (getattr(cls, "mandatory", None) or {}).values():
+                    enc = None
+                    for args in ((), (1,), (b"\x00\x00\x00\x01",), ("a.b",), (b"a.b",)):
+                        try:
+                            enc = mc(*args).dump()
+                            break
+                        except BaseException:       # noqa -- library errors derive from BaseException
+                            continue
+                    if enc is None:
+                        raise ValueError("member")
+                    members += enc
+                code = int.from_bytes(cls.code, "big")
+                vendor = int.from_bytes(cls.vendor_id, "big") if getattr(cls, "vendor_id", None) else 0
+                _GROUPED.append((vendor, code, members))
+            except BaseException:                   # noqa
+                continue
+        _GROUPED.sort()
+    return _GROUPED
+
+
+def nested_group_message(gi, depth, n):
+    """A Grouped AVP of the dictionary nested in itself `depth` levels deep, every level complete with the
+    members its own type demands (so that every level passes its validation and the decoder descends)."""
+    table = _grouped_types()
+    if not table:
+        return None
+    vendor, code, members = table[gi % len(table)]
+    flags = (C.AF_V if vendor else 0) | C.AF_M
+    inner = members
+    for _ in range(depth):
+        inner = C.enc_avp((code, flags, vendor or None, members + inner))
+    m = base_message("app_ans", n)
+    body = b"".join(C.enc_avp(a) for a in m["avps"]) + inner
+    raw = C.enc_msg(m)
+    return bytes(raw[:1]) + (20 + len(body)).to_bytes(3, "big") + bytes(raw[4:20]) + body
+
+
 def decode_many_in_grandchild(blobs, bounds, cpu_limit=20.0):
     """Like decode_in_grandchild, for a list of inputs in ONE process: -> list of result dicts (None = not reached)."""
     import json as _json
@@ -467,12 +528,23 @@ class C03(Check):
         knobs["SLEEP_TIMER"] = rng.choice([0.1, 0.3])
         for st_ in strings:
             st_["flood_cap"] = int(max(70, min(2500, 20.0 / knobs["STATE_MACHINE_TICKER"])))
-        return {"mode": mode, "state": state, "strings": strings, "sched": draw_sched(rng), "knobs": knobs,
+        return self._later_additions(rng, {"mode": mode, "state": state, "strings": strings, "sched": draw_sched(rng), "knobs": knobs,
                 "answer_mode": rng.choice(["none", "dup", "bad_hbh", "bad_e2e", "late_dup"]),
                 "election_first": rng.random() < 0.4,
                 "net": {"max_latency": rng.choice([0.0005, 0.003]), "p_fragment": rng.choice([0.0, 0.3, 0.8]),
                         "max_fragments": rng.choice([2, 4, 12])},
-                "watchdog": 30, "horizon": 120.0}
+                "watchdog": 30, "horizon": 120.0})
+
+    @staticmethod
+    def _later_additions(rng, scn):
+        # later additions draw from a generator of their own (the stream above stays what it was)
+        rng2 = random.Random(rng.getrandbits(48))
+        if rng2.random() < 0.25:
+            # single-bit corruption: exactly one flag bit (V, M or P) of one AVP of an otherwise valid, fully
+            # addressed request is flipped; everything else, lengths included, stays as it was
+            scn["strings"][rng2.randrange(len(scn["strings"]))].update(
+                {"base": "app_req_dh", "mut": "flagbit", "seed": rng2.getrandbits(30)})
+        return scn
 
     def shrink(self, scn):
         ss = scn["strings"]
@@ -576,13 +648,24 @@ class C03(Check):
         for j in range(per_run):
             k = (start + j) % total
             sweep_blobs.append((k, typed_garbage_message(k // npay, k % npay, j)))
+        # ... and (Grouped AVP class x legal self-nesting), three classes per run
+        for j in range(3):
+            gi = scn.get("index", 0) * 3 + j
+            nb = nested_group_message(gi, [12, 16, 20][j], j)
+            if nb is not None:
+                sweep_blobs.append((-1 - gi, nb))
         res = decode_many_in_grandchild([b for _, b in sweep_blobs], [min(step_bound(len(b)), 2_000_000) for _, b in sweep_blobs])
         st["decoder"]["sweep"] = len([r_ for r_ in res if r_ is not None])
         for (k, b), r_ in zip(sweep_blobs, res):
             if r_ is None:
                 continue
-            vendor, code = table[k // npay]
-            where = {"avp_code": code, "vendor": vendor, "payload_index": k % npay, "hex": b.hex()[-80:]}
+            if k < 0:
+                gv, gc_, _ = _grouped_types()[(-1 - k) % len(_grouped_types())]
+                vendor, code = gv, gc_
+                where = {"avp_code": code, "vendor": vendor, "payload": "legal self-nesting", "len": len(b)}
+            else:
+                vendor, code = table[k // npay]
+                where = {"avp_code": code, "vendor": vendor, "payload_index": k % npay, "hex": b.hex()[-80:]}
             if r_["status"] in ("steps", "wall"):
                 viol("decoding terminates within a step bound that depends only on the input's length",
                      "decoder/hang/typed-avp", dict(where, how=r_["status"]))
